@@ -589,6 +589,10 @@ def gen_dag_spec(tape, max_nodes=9, allow_stochastic_observed=True):
                    else 0}
             if kind in ('op', 'sim', 'sum') and tape.chance('uses_meta', 1, 5):
                 cfg['use_meta'] = True
+            elif kind in ('op', 'sim', 'sum') and tape.chance('meta_withdrawn', 1, 8):
+                # uses_meta explicitly set to False (directly, or declared and withdrawn): the
+                # node does NOT declare run metadata
+                cfg['meta_false'] = tape.choice('withdraw_how', ['false', 'true_then_false'])
             node['parents'] = par
             node['cfg'] = cfg
             # named edges (not for discrepancies: their observed twin is args_to_tuple)
@@ -719,6 +723,10 @@ def build_dag_model(elfi, spec, order=None, tag=None):
         refs[name] = cls(op, *parents, model=m, name=name, **kw)
         if n['cfg'].get('use_meta'):
             refs[name].uses_meta = True
+        elif n['cfg'].get('meta_false'):
+            if n['cfg']['meta_false'] == 'true_then_false':
+                refs[name].uses_meta = True
+            refs[name].uses_meta = False
     for n in nodes:
         for pname, parent in n.get('named', {}).items():
             m.add_edge(parent, n['name'], param_name=pname)
